@@ -58,6 +58,7 @@ package fft
 //@   panics when len(x) != f.N
 //@   modifies x
 //@   ensures r0 == x
+//@   defines forall k int :: {x[k]} 0 <= k && k < f.N ==> x[k] == fftT(x@pre, f.E, f.perm, f.N)[k]
 //@   loop 1
 //@     invariant 1 <= p && p <= f.p + 1 && n == pow2(p-1) && s == pow2(f.p - p + 1) && s * n == f.N && n >= 1 && s >= 1
 //@   loop 2
@@ -75,8 +76,14 @@ package fft
 //@   requires ref(x) != ref(f.E)
 //@   panics when len(x) != f.N
 //@   modifies x
+//@   let T := fftT(revseq(x@pre, f.N), f.E, f.perm, f.N)
 //@   ensures r0 == x
+//@   ensures forall k int :: {x[k]} 0 <= k && k < f.N ==> x[k] == cmul(T[k], cx(1.0 / real(f.N), 0.0))
+//@   assert before loop 1: f.p >= 1 ==> f.N == 2*pow2(f.p - 1)
 //@   loop 1
-//@     invariant 1 <= i
+//@     invariant 1 <= i && (i == 1 || i <= f.N / 2)
+//@     invariant forall t int :: {x[t]} 0 <= t && t < f.N ==> x[t] == ((1 <= t && t < i) || (f.N - i < t && t < f.N) ? x@pre[f.N - t] : x@pre[t])
 //@   loop 2
 //@     invariant 0 <= $i
+//@     invariant forall t int :: {x[t]} 0 <= t && t < f.N ==> x[t] == (t < $i ? cmul(T[t], cx(1.0 / real(f.N), 0.0)) : T[t])
+//@   assert before call Transform: forall t int :: {x[t]} 0 <= t && t < f.N ==> x[t] == revseq(x@pre, f.N)[t]
